@@ -1015,3 +1015,129 @@ def copymp11(F, R):
                         R.seen(f); R.anchor('this-capture:' + backend_of(f))
                         R.ob('C15.this', False, {'func': f.q, 'queue': q, 'bound_target': f.expr(bn['args'][1])})
                         R.find('C15.this', f, 'this-capture:' + q, 'the callable stored in the %s is bound to the address of the machine it was submitted to (%s); do_copy copies that queue, so the copy\'s pending events are dispatched on the original machine' % ({'MSGQ': 'message queue', 'DEFQ': 'deferred queue'}[q], f.expr(bn['args'][1])), where=f.at(i))
+
+# ------------------------------------------------------------------ stored events (C20)
+
+@rule('poly')
+def poly(F, R):
+    """C20.poly / C20.erasure: value semantics of the backmp11 event pool element (basic_polymorphic_base + control_block)
+    and agreement of the type-erased pointer round trips."""
+    from rules_order import dependency_closure
+    for f in F.funcs:
+        if backend_of(f) != 'backmp11' or not f.blocks: continue
+        if f.cls == 'basic_polymorphic_base':
+            sp = f.d.get('sp')
+            def cl(i, n):
+                if n['k'] == 'call' and n.get('n') == 'destroy' and n.get('pc') == 'basic_polymorphic_base': return 'D'
+                if n['k'] == 'call' and n.get('pc') == 'control_block' and n.get('n') in ('copy', 'move'): return n['n'][0].upper()
+                if n['k'] == 'asg' and f.base_member(n['lhs']) == 'm_control_block': return 'W'
+                if n['k'] == 'init' and n.get('member') == 'm_control_block' and n.get('written'): return 'W'
+                return None
+            if sp in ('copy_assign', 'move_assign'):
+                R.seen(f); R.anchor('poly:' + sp)
+                seqs = tokens_on_paths(f, cl)
+                want = ['D', 'W', 'C' if sp == 'copy_assign' else 'M']
+                ok = sorted(map(tuple, seqs)) == sorted([(), tuple(want)])
+                # the empty path must be the self-assignment path
+                selfchk = any(b.get('tc') and f.nodes[b['tc']]['k'] == 'bin' and f.nodes[b['tc']]['op'] in ('!=', '==') and 'this' in f.expr(b['tc']) for b in f.blocks)
+                R.ob('C20.poly', ok and selfchk, {'func': f.q, 'sequences': seqs, 'self_check': selfchk})
+                if not (ok and selfchk): R.find('C20.poly', f, sp, '%s must test self-assignment and otherwise destroy the held object, take the control block, then %s; found %s (self check %s)' % (sp, 'copy' if sp == 'copy_assign' else 'move', seqs, selfchk))
+            elif sp in ('copy_ctor', 'move_ctor'):
+                R.seen(f); R.anchor('poly:' + sp)
+                seqs = tokens_on_paths(f, cl)
+                want = ['W', 'C' if sp == 'copy_ctor' else 'M']
+                ok = all(s == want for s in seqs) and bool(seqs)
+                R.ob('C20.poly', ok, {'func': f.q, 'sequences': seqs})
+                if not ok: R.find('C20.poly', f, sp, '%s must take the source\'s control block and then %s the object; found %s' % (sp, 'copy' if sp == 'copy_ctor' else 'move', seqs))
+            elif sp == 'dtor':
+                R.seen(f); R.anchor('poly:dtor')
+                seqs = tokens_on_paths(f, cl)
+                ok = all(s == ['D'] for s in seqs) and bool(seqs)
+                R.ob('C20.poly', ok, {'func': f.q, 'sequences': seqs})
+                if not ok: R.find('C20.poly', f, 'dtor', 'the destructor must destroy the held object exactly once; found %s' % seqs)
+            elif sp == 'ctor' and f.d['params']:
+                # construction from a value: the control block's inline flag agrees with the storage arm taken
+                R.seen(f); R.anchor('poly:value-ctor')
+                inl = None
+                for n in f.nodes:
+                    if n and n['k'] == 'init' and n.get('member') == 'm_control_block':
+                        for d in dependency_closure(f, n['e']):
+                            m = f.nodes[d]
+                            if m and m['k'] == 'ref' and m.get('ta') is not None:
+                                ta = F.targs(m['ta'])
+                                if len(ta) >= 2: inl = bool(ta[1])
+                heap = any(n and n['k'] == 'asg' and f.base_member(n['lhs']) == 'm_ptr' for n in f.nodes)
+                buf = any(n and ((n['k'] == 'new' and n['place']) or (n['k'] == 'call' and n.get('n') == 'memcpy')) for n in f.nodes)
+                ok = inl is not None and ((inl and buf and not heap) or (not inl and heap and not buf))
+                R.ob('C20.poly', ok, {'func': Facts.short(f.fq, 120), 'control_block_inline': inl, 'writes_buffer': buf, 'writes_heap_pointer': heap})
+                if not ok: R.find('C20.poly', f, 'ctor-arm', 'value constructor selects control block inline=%s but stores the object in %s' % (inl, 'the buffer' if buf else 'the heap' if heap else 'nothing'))
+            elif f.n == 'destroy':
+                R.seen(f); R.anchor('poly:destroy')
+                calls = [n for i, n in f.calls() if n.get('pc') == 'control_block' and n.get('n') == 'destroy']
+                nulls = [n for n in f.nodes if n and n['k'] == 'asg' and f.base_member(n['lhs']) == 'm_ptr']
+                ok = len(calls) == 1 and len(nulls) == 1
+                R.ob('C20.poly', ok, {'func': f.q})
+                if not ok: R.find('C20.poly', f, 'destroy', 'destroy() must run the control block\'s destroy once and null a heap pointer')
+        if f.cls == 'control_block':
+            if f.n == 'move':
+                R.seen(f); R.anchor('cb:move')
+                # heap arm: pointer copied and the source nulled
+                writes = [f.expr(i) for i, n in enumerate(f.nodes) if n and n['k'] == 'asg']
+                ok = any('src' in w and 'null' in w for w in writes) and any('dest' in w and 'src' in w for w in writes)
+                calls = [n.get('n') for i, n in f.calls()]
+                ok = ok and 'memcpy' in calls
+                R.ob('C20.poly', ok, {'func': f.q, 'writes': writes})
+                if not ok: R.find('C20.poly', f, 'move', 'control_block::move must steal a heap pointer and null the source (else the object is deleted twice) and memcpy / move-construct inline objects; writes: %s' % writes)
+            if f.n == 'destroy':
+                R.seen(f); R.anchor('cb:destroy')
+                guarded = False
+                for b in f.blocks:
+                    if b.get('tc'):
+                        dep = dependency_closure(f, b['tc'])
+                        names = {f.nodes[d].get('n') for d in dep if f.nodes[d]}
+                        if 'delete_fn' in names and 'obj' in names: guarded = True
+                R.ob('C20.poly', guarded, {'func': f.q})
+                if not guarded: R.find('C20.poly', f, 'destroy', 'control_block::destroy must tolerate a null object and a null deleter')
+            if f.n == 'copy':
+                R.seen(f); R.anchor('cb:copy')
+                calls = [n.get('n') for i, n in f.calls()]
+                indirect = any(n['k'] == 'call' and 'fk' not in n for i, n in f.calls())
+                ok = 'memcpy' in calls and indirect
+                R.ob('C20.poly', ok, {'func': f.q})
+                if not ok: R.find('C20.poly', f, 'copy', 'control_block::copy must memcpy trivially copyable inline objects and call the copy constructor otherwise')
+    # pooled classes: event_occurrence is the first, non-virtual base (the pool stores and casts event_occurrence*)
+    for r in F.records:
+        if r['loc'].startswith('boost/msm/backmp11/') and r['n'] in ('deferred_event', 'completion_event_occurrence'):
+            R.anchor('pool-layout:' + r['n'])
+            ok = bool(r['bases']) and F.strs[r['bases'][0]['t']].endswith('event_occurrence') and not r['bases'][0]['virt']
+            R.ob('C20.poly', ok, {'record': Facts.short(F.strs[r['t']], 80), 'first_base': F.strs[r['bases'][0]['t']] if r['bases'] else None})
+            if not ok: R.find('C20.poly', ('boost/msm/backmp11', r['q']), 'layout', 'event_occurrence must be the first non-virtual base of %s' % Facts.short(F.strs[r['t']], 80), where=r['loc'])
+    # type-erased round trips: exit point forwarder
+    ex = {}
+    for f in F.funcs:
+        if backend_of(f) != 'backmp11' or f.cls != 'exit_pt' or not f.blocks: continue
+        ct = F.class_type(f)
+        if f.n == 'init':
+            for n in f.nodes:
+                if n and n['k'] == 'asg' and f.base_member(n['lhs']) == 'm_forward_fn':
+                    for d in dependency_closure(f, n['rhs']):
+                        m = f.nodes[d]
+                        if m and m['k'] == 'ref' and m.get('dk') in ('method', 'func') and m['n'] == 'call_enqueue_event':
+                            fq = F.strs[m['fq']]
+                            ex.setdefault(ct, {})['reads'] = parse_type(fq[fq.index('call_enqueue_event'):])[1]
+        if f.n == 'forward_event':
+            for i, n in f.calls():
+                if 'fk' not in n and n.get('fn'):
+                    a = n['args']
+                    if len(a) >= 2:
+                        an = f.nodes[a[1]]
+                        while an and an['k'] in ('icast', 'cast'): an = f.nodes[an['e']]
+                        if an and an['k'] == 'un' and an['op'] == '&':
+                            ex.setdefault(ct, {}).setdefault('passes', set()).add(strip_cvref(f.type_of(an['e'])))
+    for ct, d in ex.items():
+        if 'reads' in d and 'passes' in d:
+            R.anchor('erasure:exit-forwarder')
+            rd = strip_cvref(d['reads'][-1]) if d['reads'] else None
+            ok = d['passes'] == {rd}
+            R.ob('C20.erasure', ok, {'exit_point': Facts.short(ct, 80), 'callee_reads': Facts.short(str(rd), 40), 'caller_passes': [Facts.short(x, 40) for x in d['passes']]})
+            if not ok: R.find('C20.erasure', ('boost/msm/backmp11/detail/state_machine_base.hpp', 'boost::msm::backmp11::detail::state_machine_base::exit_pt::forward_event'), 'exit-forwarder', 'the exit point forwarder is handed a pointer to %s but reads a %s through it' % ([Facts.short(x, 40) for x in d['passes']], Facts.short(str(rd), 40)), instance=Facts.short(ct, 160))
